@@ -31,7 +31,7 @@ def main():
             run_demo = f"WT={wt} bash {os.path.join(ddir, 'demo.sh')}"
             # demo.sh scripts refer to the author's worktree path; point them at ours
             script = open(os.path.join(ddir, "demo.sh")).read()
-            m = re.search(r"/tmp/wt2?/C\d\d", script)
+            m = re.search(r"/tmp/wt\d?/C\d\d", script)
             tmpd = tempfile.mkdtemp(prefix="demo-" + mid + "-", dir="/tmp")
             for f in os.listdir(ddir):
                 if os.path.isfile(os.path.join(ddir, f)):
@@ -51,22 +51,32 @@ def main():
             src = open(demo).read()
             pkg = re.search(r"^package (\w+)", src, re.M).group(1)
             if pkg in ("bebop", "bebop_test"):
-                sub = "."
+                subs = ["."]
             elif pkg.startswith("iohelp"):
-                sub = "iohelp"
+                subs = ["iohelp"]
             elif pkg == "main" or pkg == "main_test":
-                sub = "main/bebopfmt" if "bebopfmt" in src else "main/bebopc-go"
+                subs = ["main/bebopfmt" if "bebopfmt" in src else "main/bebopc-go"]
             elif pkg.startswith("importgraph"):
-                sub = "internal/importgraph"
+                subs = ["internal/importgraph"]
             else:
-                sub = "internal/" + pkg  # demo packages state "place at <worktree>/internal/<pkg>/"
-            os.makedirs(os.path.join(wt, sub), exist_ok=True)
-            dst = os.path.join(wt, sub, "zz_seeded_demo_test.go")
-            shutil.copy(demo, dst)
-            placed.append(dst)
+                # demo packages of their own: some say "<worktree>/<pkg>/", some "<worktree>/internal/<pkg>/"
+                subs = [pkg, "internal/" + pkg]
             names = re.findall(r"^func (Test\w+)\(", src, re.M)
             pat = "|".join("^" + n + "$" for n in names if n != "TestMain")
-            run_demo = f"go test -vet=off -count=1 -run '{pat}' ./{sub}/" if sub != "." else f"go test -vet=off -count=1 -run '{pat}' ."
+            for sub in subs:
+                os.makedirs(os.path.join(wt, sub), exist_ok=True)
+                dst = os.path.join(wt, sub, "zz_seeded_demo_test.go")
+                shutil.copy(demo, dst)
+                flags = os.environ.get("DEMO_FLAGS", "")  # e.g. -race for demos that need the race detector
+                run_demo = f"go test {flags} -vet=off -count=1 -run '{pat}' ./{sub}/" if sub != "." else f"go test {flags} -vet=off -count=1 -run '{pat}' ."
+                if len(subs) == 1:
+                    break
+                rc0, _ = sh(run_demo, wt)
+                sh("git checkout -- . ", wt)
+                if rc0 == 0:
+                    break
+                os.remove(dst)
+            placed.append(dst)
             demo_where = sub
         res["demo_cmd"] = run_demo
         rc, out = sh(run_demo, wt)
